@@ -428,7 +428,11 @@ def coq_rprogram(case) -> str:
 def coq_any_program(case) -> str:
     """script-free programs go to the kernel DeferredK (which carries the theorems), programs with scripts to the
     re-entrant kernel DeferredKR"""
-    return ("inr " + coq_rprogram(case)) if has_scripts(case) else ("inl " + coq_program(case))
+    if has_scripts(case):
+        return "inr " + coq_rprogram(case)
+    # every 8th script-free case (by content) is also evaluated on the re-entrant kernel: the kernels must agree
+    both = sum(map(len, map(str, case["ops"]))) % 8 == 0
+    return f"inl ({'true' if both else 'false'}, {coq_program(case)})"
 
 
 def coq_program(case) -> str:
